@@ -220,7 +220,9 @@ class Program:
             if key in seen_fn:
                 continue
             seen_fn.add(key)
-            self.fns[fd['name']].append(Fn(fd, u['file']))
+            fn_ = Fn(fd, u['file'])
+            fn_.prog = self
+            self.fns[fd['name']].append(fn_)
         for p in u.get('protos', []):
             self.protos[p['name']].append(p)
         for r in u['records']:
